@@ -494,5 +494,13 @@ def rule_h(ctx: Ctx, rule: str = 'C01.h') -> None:
     ctx.explain(f'{rule}: every `occurs[g] = 0` under the guard isinstance(g, XsdGroup) also assigns `occurs[g.oid]` (chained targets), because the reader prefers the oid counter.')
 
 
-RULES = [rule_a, rule_b, rule_c, rule_d, rule_e, rule_f, rule_g, rule_h]
+def rule_i(ctx: Ctx) -> None:
+    """XSD 1.1: an element particle that competes with a wildcard is given precedence (check_model registers it when is_overlap says so) and
+    the wildcard then leaves the name - and the names of the members of the element's substitution group - to it.  The overlap test of
+    element particles against wildcards and against each other is therefore part of the content-model language - C15.i body."""
+    from .c15 import rule_i as overlap_siblings
+    overlap_siblings(ctx, 'C01.i')
+
+
+RULES = [rule_a, rule_b, rule_c, rule_d, rule_e, rule_f, rule_g, rule_h, rule_i]
 THOROUGH = [thorough_a]
